@@ -355,11 +355,17 @@ func registerEnvIntrinsics() {
 		in.maybePreempt("sync")
 		o := in.sideObj(args[0], "waitgroup")
 		d := in.concreteInt(fr, args[1], "WaitGroup.Add")
+		fromZero := o.n == 0 && d > 0
 		o.n += d
 		if o.n < 0 {
 			fr.tpanic("explicit", CStr("sync: negative WaitGroup counter"))
 		}
 		in.emit("wg.add", o.String(), fmt.Sprint(d))
+		if fromZero {
+			// sync.WaitGroup's rule (and what the race detector instruments): the first
+			// increment from zero must be synchronised with Wait
+			in.emit("sema.rd", "waitgroup-sema:"+o.String(), "add-from-zero")
+		}
 		return nil, true
 	}
 	I["(*sync.WaitGroup).Done"] = func(in *Interp, fr *frame, args []Value) (Value, bool) {
@@ -376,7 +382,14 @@ func registerEnvIntrinsics() {
 		in.maybePreempt("sync")
 		o := in.sideObj(args[0], "waitgroup")
 		in.emit("wg.wait.begin", o.String())
+		if o.n > 0 && o.F["waiters"] == nil {
+			in.emit("sema.wr", "waitgroup-sema:"+o.String(), "first-waiter")
+		}
+		if o.n > 0 {
+			o.F["waiters"] = true
+		}
 		in.block("wg.wait "+o.String(), func() bool { return o.n <= 0 })
+		delete(o.F, "waiters")
 		in.emit("wg.wait", o.String())
 		return nil, true
 	}
@@ -1121,6 +1134,8 @@ func (in *Interp) objMethod(fr *frame, o *Obj, name string, args []Value) Value 
 		case "Done":
 			return &Chan{ctx: o}
 		case "Err":
+			// an observation of the context's state, like a non-blocking receive from Done()
+			in.emit("poll", o.String(), fmt.Sprint(in.ctxCancelled(fr, o)))
 			if in.ctxCancelled(fr, o) {
 				return in.newError(CStr("context canceled"), nil)
 			}
